@@ -376,6 +376,24 @@ func solveAll(e *Exec, res *HarnessResult, prop string, timeoutS int, meta *Harn
 				}
 				model = outR.model
 			}
+			if violation && e.fpRelaxed && !meta.Conc && !g.noReplay && meta.Opts["noreplay"] == "" {
+				// look for a counterexample whose float inputs are exactly representable (multiples of 1/8 of
+				// moderate size), so that the native replay runs on the very same values
+				var nice []*Term
+				for name, ty := range e.nondetTy {
+					v := e.nondets[name]
+					if ty == "float64" && v.Sort.K == SReal {
+						nice = append(nice, App("is_int", BoolSort, App("*", RealSort, RealConst("8.0"), v)),
+							App("<=", BoolSort, v, RealConst("1073741824.0")), App("<=", BoolSort, RealConst("(- 1073741824.0)"), v))
+					}
+				}
+				if len(nice) > 0 {
+					nr := e.decide(append(append([]*Term{q}, nice...), axioms...), timeoutS, meta.Solver, "", true)
+					if nr.res == "sat" {
+						model = nr.model
+					}
+				}
+			}
 			if violation {
 				or.Model = model
 				dir := filepath.Join(outDir, sanitize(g.id))
@@ -447,6 +465,9 @@ func decodeModel(m Model, e *Exec) map[string]ModelVal {
 			}
 		case "float64":
 			if f, ok := modelFP(raw); ok {
+				out[name] = ModelVal{ty, fmt.Sprintf("%x", math.Float64bits(f))}
+			} else if f, ok := modelReal(raw); ok {
+				// relaxed-real mode: nearest float64 of the rational model value
 				out[name] = ModelVal{ty, fmt.Sprintf("%x", math.Float64bits(f))}
 			} else {
 				out[name] = ModelVal{"real", raw}
@@ -532,7 +553,11 @@ func TestVerifReplay(t *testing.T) {
 	ob, _ := json.Marshal(map[string]interface{}{"Replace": ov})
 	ovPath := filepath.Join(dir, "overlay.json")
 	os.WriteFile(ovPath, ob, 0o644)
-	sh := fmt.Sprintf("#!/bin/sh\n# replays the solver's counterexample against the natively compiled code\ncd %s && VERIF_MODEL=%s GOFLAGS=-mod=mod GOPROXY=off GOSUMDB=off GOTOOLCHAIN=local go test -vet=off -count=1 -overlay %s -run 'TestVerifReplay$' -v ./%s\n",
+	fuzz := ""
+	if meta.FP == "uf" || meta.FP == "relaxed" {
+		fuzz = "VERIF_FUZZ_FLOATS=1 "
+	}
+	sh := fmt.Sprintf("#!/bin/sh\n# replays the solver's counterexample against the natively compiled code\ncd %s && "+fuzz+"VERIF_MODEL=%s GOFLAGS=-mod=mod GOPROXY=off GOSUMDB=off GOTOOLCHAIN=local go test -vet=off -count=1 -overlay %s -run 'TestVerifReplay$' -v ./%s\n",
 		repoDir, filepath.Join(dir, "model.json"), ovPath, meta.Pkg)
 	os.WriteFile(filepath.Join(dir, "replay.sh"), []byte(sh), 0o755)
 	cmd := exec.Command("timeout", "300", "sh", filepath.Join(dir, "replay.sh"))
